@@ -98,7 +98,8 @@ CHECKS.update({
             "runtime round-trip/conversion monitors over strided or full int32 sweeps and transition neighbourhoods, ASan+UBSan slice",
             "Fixed offsets: every 997th second plus all day boundaries for 139 offsets (quick), all 2^32 instants for 9 offsets "
             "(thorough); database zones of both registries in all four kinds around every transition and on grids, converted "
-            "to sampled other zones. Identities are checked on the value itself, no external oracle needed except the int64 "
+            "to sampled other zones; compareTo on the same instant, the next second and, for fixed offsets, the instant mirrored in "
+            "the valid range (pairs up to 2^32-1 s apart). Identities are checked on the value itself, no external oracle needed except the int64 "
             "civil calendar for fields.",
             BASE_NOTE + " Verdict domain excludes instants where t+offset leaves the int32 day arithmetic (C09).", "3/C05"),
     "C07": ("exploration",
